@@ -109,6 +109,8 @@ structure World where
   (key 0: the common difference, 2 + c: channel c): updates of OTHER sequences, position-less
   updates, updates of unknown channels — forwarded by the server inside this difference -/
   extra : List (Nat × List Nat) := []
+  /-- keys (0 common, 2 + c channel) whose next difference request fails with a transient RPC error -/
+  failNext : List Nat := []
   deriving Repr
 
 def World.happened (w : World) : List Entry := w.log.take w.emitted
@@ -136,6 +138,7 @@ def cut (n : Nat) (es : List Entry) : List Entry × Bool :=
   if n > 0 ∧ es.length > n then (es.take n, true) else (es, false)
 
 inductive DiffAns where
+  | error            -- the RPC failed (transient): nothing is learnt, nothing changes
   | tooLong (p : Int)
   | empty
   | diff (msgs enc others : List Entry) (p q : Int) (slice : Bool)
@@ -143,7 +146,8 @@ inductive DiffAns where
 
 /-- `World.commonDifference`. -/
 def World.commonDiff (w : World) (pts qts : Int) : World × DiffAns :=
-  if w.tooLongNext then ({ w with tooLongNext := false }, .tooLong w.serverPts)
+  if w.failNext.contains 0 then ({ w with failNext := w.failNext.filter (· != 0) }, .error)
+  else if w.tooLongNext then ({ w with tooLongNext := false }, .tooLong w.serverPts)
   else
     let cand := w.happened.filter fun e =>
       (e.seqKey == some 0 && decide (e.pos > pts)) || (e.seqKey == some 1 && decide (e.pos > qts))
@@ -159,6 +163,7 @@ def World.commonDiff (w : World) (pts qts : Int) : World × DiffAns :=
             ((part.filter fun e => e.kind == .other || e.kind == .qother) ++ extras) p q more)
 
 inductive ChDiffAns where
+  | error
   | tooLong (p : Int)
   | empty (p : Int)
   | diff (msgs others : List Entry) (p : Int) (final : Bool)
@@ -166,7 +171,8 @@ inductive ChDiffAns where
 
 /-- `World.channelDifference`. -/
 def World.chanDiff (w : World) (c : Nat) (pts : Int) : World × ChDiffAns :=
-  if w.chTooLong.contains c then ({ w with chTooLong := w.chTooLong.filter (· != c) }, .tooLong (w.serverChan c))
+  if w.failNext.contains (2 + c) then ({ w with failNext := w.failNext.filter (· != 2 + c) }, .error)
+  else if w.chTooLong.contains c then ({ w with chTooLong := w.chTooLong.filter (· != c) }, .tooLong (w.serverChan c))
   else
     let cand := w.happened.filter fun e => e.seqKey == some (2 + c) && decide (e.pos > pts)
     let (part, more) := cut w.chSlice cand
@@ -341,6 +347,7 @@ def Mgr.getDifference (O : Orders) : Nat → Mgr → Mgr
     let m := st.1
     match st.2 with
     | none => m
+    | some .error => m   -- `return errors.Wrap(err, "get difference")`: logged by the caller
     | some .empty => m   -- SetDateSeq / seq.SetState only: no pts/qts effect
     | some (.tooLong p) =>
       let m := m.seqOp O 0 (.seq (seqCalls .storePts .boxSetPts [] O.diffTooLong) p [])
@@ -372,6 +379,7 @@ def Mgr.chGetDifference (O : Orders) (c : Nat) : Nat → Mgr → Mgr
     let m := st.1
     match st.2 with
     | none => m
+    | some .error => m   -- a transient error is logged; the worker goes on
     | some (.tooLong p) => m.seqOp O (2 + c) (.seq (seqCalls .storeChannelPts .boxSetPts [] O.chDiffTooLong) p [])
     | some (.empty p) => m.seqOp O (2 + c) (.seq (seqCalls .storeChannelPts .boxSetPts [] O.chDiffEmpty) p [])
     | some (.diff msgs others p final) =>
@@ -432,6 +440,7 @@ inductive Action where
   | tlNext
   | chTlNext (c : Nat)
   | extra (k : Nat) (ids : List Nat)   -- the next answer for key `k` (0 common, 2 + c channel) carries these too
+  | failNext (k : Nat)                 -- the next difference request for key `k` fails (transient RPC error)
   deriving Repr
 
 def fuel0 : Nat := 64
@@ -475,6 +484,7 @@ def Mgr.act (O : Orders) (m : Mgr) : Action → Mgr
   | .tlNext => { m with w := { m.w with tooLongNext := true } }
   | .chTlNext c => { m with w := { m.w with chTooLong := c :: m.w.chTooLong } }
   | .extra k ids => { m with w := { m.w with extra := (k, ids) :: m.w.extra.filter (·.1 != k) } }
+  | .failNext k => { m with w := { m.w with failNext := k :: m.w.failNext } }
 
 /-- `Manager.Run` from a persisted state: startup differences, then the actions, each followed
 by quiescence. -/
